@@ -671,8 +671,9 @@ func (i *Snapshot) readSegmentSnapshot(br *bufio.Reader) (bytesRead int64, ss *s
 	bytesRead += int64(sz)
 
 	if delLen > 0 {
-		deletedBytes := make([]byte, int(delLen))
-		sz, err = io.ReadFull(br, deletedBytes)
+		var deletedBytes []byte
+		deletedBytes, err = readLengthPrefixed(br, delLen)
+		sz = len(deletedBytes)
 		if err != nil {
 			return bytesRead, nil, fmt.Errorf("error reading snapshot %d: %w", i.epoch, err)
 		}
@@ -704,13 +705,30 @@ func readVarLenString(r *bufio.Reader) (n int, str string, err error) {
 	}
 	n += sz
 
-	strBytes := make([]byte, strLen)
-	sz, err = r.Read(strBytes)
+	strBytes, err := readLengthPrefixed(r, strLen)
+	sz = len(strBytes)
 	if err != nil {
 		return n, "", err
 	}
 	n += sz
 	return n, string(strBytes), nil
+}
+
+// readLengthPrefixed reads exactly n bytes.  The length comes from the file:
+// the buffer grows with the bytes that actually arrive, so that a length
+// field that lies about the file cannot make us allocate (or fail to
+// allocate) more than the file holds.
+func readLengthPrefixed(r io.Reader, n uint64) ([]byte, error) {
+	const maxLen = 1 << 31
+	if n > maxLen {
+		return nil, fmt.Errorf("length %d out of range", n)
+	}
+	var buf bytes.Buffer
+	_, err := io.CopyN(&buf, r, int64(n))
+	if err != nil {
+		return buf.Bytes(), err
+	}
+	return buf.Bytes(), nil
 }
 
 func (i *Snapshot) DocumentValueReader(fields []string) (
